@@ -88,13 +88,21 @@ def check_final(out, names, reference_rows=None):
 def restart(params):
     serial_pools()
     bad = []
-    names = ["s0", "s1", "s2"]
-    for state in ("absent", "empty", "header-only", "header+rows"):
+    names = ["s0", " s1", "s2 "]
+    for state in ("absent", "empty", "header-only", "header+rows", "noext"):
         with tempfile.TemporaryDirectory() as d:
             ref_out = os.path.join(d, "ref.tsv")
             session(ref_out, names)
             ref_rows = read_rows(ref_out)
             out = os.path.join(d, "out.tsv")
+            if state == "noext":
+                out = os.path.join(d, "results")
+                session(out, names[:1], kill_after=3)
+                session(out, names[:2], kill_after=9)
+                session(out, names)
+                b = check_final(out + ".tsv", names, ref_rows)
+                bad += [f"[{state}] {x}" for x in b]
+                continue
             if state == "empty":
                 open(out, "w").close()
             elif state == "header-only":
@@ -126,7 +134,7 @@ def restart(params):
 def crash(params):
     serial_pools()
     bad = []
-    names = ["s0", "s1", "s2"]
+    names = ["s0", " s1", "s2 "]
     with tempfile.TemporaryDirectory() as d:
         ref_out = os.path.join(d, "ref.tsv")
         nops, _ = session(ref_out, names)
@@ -148,8 +156,13 @@ def neighbours(params):
     serial_pools()
     import panoptica.panoptica_aggregator as A
     bad = []
-    with tempfile.TemporaryDirectory() as d:
-        a, b = os.path.join(d, "a.tsv"), os.path.join(d, "b.tsv")
+    pairs = [("a.tsv", "b.tsv"), ("scores.fold0.tsv", "scores.fold1.tsv"), ("a.tsv", "a.b.tsv"), ("x", "x.y.tsv")]
+    col = params.get("collide") or []
+    if len(col) == 2:
+        pairs.insert(0, (os.path.basename(col[0]), os.path.basename(col[1])))
+    for na, nb in pairs:
+      with tempfile.TemporaryDirectory() as d:
+        a, b = os.path.join(d, na), os.path.join(d, nb)
         ag1 = A.Panoptica_Aggregator(_evaluator(), a)
         ag2 = A.Panoptica_Aggregator(_evaluator(), b)
         p, r = SUBJ["s0"]
@@ -157,17 +170,44 @@ def neighbours(params):
         ag2.evaluate(p.copy(), r.copy(), "s0")
         ag2.evaluate(p.copy(), r.copy(), "s1")
         ag1.evaluate(p.copy(), r.copy(), "s1")
-        for out, nm in ((a, "a.tsv"), (b, "b.tsv")):
-            bb = check_final(out, ["s0", "s1"])
-            bad += [f"[{nm}] {x}" for x in bb]
-    return {"violated": bool(bad), "problems": bad[:4], "witness_class": WC_TMP if bad else None}
+        for out, nm in ((a, na), (b, nb)):
+            real = out if out.endswith(".tsv") else out + ".tsv"
+            bb = check_final(real, ["s0", "s1"])
+            bad += [f"[{nm} next to {na if nm == nb else nb}] {x}" for x in bb]
+    return {"violated": bool(bad), "problems": bad[:4], "witness_class": WC_TMP if any("[b.tsv" in x or "[a.tsv next to b.tsv" in x for x in bad) else None}
+
+
+def header_order(params):
+    """continuing a file whose header has the same columns in another order must be refused (rows would be filed under wrong columns)"""
+    serial_pools()
+    import panoptica.panoptica_aggregator as A
+    from panoptica import Panoptica_Evaluator, InputType
+    from panoptica.metrics import Metric
+    from panoptica.utils.segmentation_class import SegmentationClassGroups
+    from panoptica.utils.label_group import LabelGroup
+    bad = []
+
+    def ev(order):
+        return Panoptica_Evaluator(expected_input=InputType.MATCHED_INSTANCE, instance_metrics=[Metric.DSC, Metric.IOU], global_metrics=[],
+                                   segmentation_class_groups=SegmentationClassGroups({g: LabelGroup([i]) for g, i in order}))
+    with tempfile.TemporaryDirectory() as d:
+        out = os.path.join(d, "o.tsv")
+        a1 = A.Panoptica_Aggregator(ev([("liver", 1), ("spleen", 2)]), out)
+        p, r = SUBJ["s0"]
+        a1.evaluate(p.copy(), r.copy(), "s0")
+        try:
+            A.Panoptica_Aggregator(ev([("spleen", 2), ("liver", 1)]), out)
+            bad.append("an aggregator whose columns are ordered differently was allowed to continue the file")
+        except AssertionError:
+            pass
+    return {"violated": bool(bad), "problems": bad}
 
 
 def bounded(params):
     serial_pools()
     tier, seed = params.get("tier", "quick"), int(params.get("seed", 0))
     failures, evals = [], 0
-    for kind, fn in (("restart", restart), ("crash", crash), ("neighbours", neighbours)):
+    for kind, fn in (("restart", restart), ("crash", crash), ("neighbours", neighbours), ("header_order", header_order)):
         res = fn({})
         evals += 1
         if res["violated"]:
